@@ -592,6 +592,81 @@ pub fn too_large_error(len: usize) -> (e: Error) { unimplemented!() }
         (res.is_err() && read.data().len() <= 0xffff_ffff) ==> (res->Err_0).has_pos,
 //@end
 
+// ---- LazyValue as a target: the skipped text is handed out as a `str` (found F25: the UTF-8 verdict was never looked at)
+pub uninterp spec fn lossy_repair(b: Seq<u8>) -> Seq<u8>;
+// `String::from_utf8_lossy(raw)` (std, T4)
+pub struct LossyText { pub text: String }
+impl LossyText {
+    pub uninterp spec fn bytes(&self) -> Seq<u8>;
+    #[verifier::external_body]
+    pub fn as_str(&self) -> (r: &str) ensures str_bytes(r) == self.bytes(), { unimplemented!() }
+}
+#[verifier::external_body]
+pub fn lossy_cow(raw: &[u8]) -> (r: LossyText) ensures r.bytes() == lossy_repair(raw@), { unimplemented!() }
+impl<'de, R: Reader<'de>> Deserializer<R> {
+//@extract file=src/serde/de.rs impl="Deserializer<R>" fn=deserialize_lazyvalue
+//@subst /V: de::Visitor<'de>,/ => V: Visitor<'de>,
+//@subst? /visitor\.visit_str\(&String::from_utf8_lossy\(raw\)\)/ => visitor.visit_str(lossy_cow(raw).as_str())
+//@subst /status == ParseStatus::HasEscaped/ => status_is_escaped(status)
+//@sig
+        requires old(self).parser.pinv(),
+        ensures final(self).parser.pinv(), final(self).parser.same_doc(&old(self).parser),
+            ({
+                let s = old(self).parser.read.data();
+                let i = old(self).parser.read.idx() as int;
+                let p = ws_end(s, i);
+                let lossy = old(self).parser.cfg.utf8_lossy;
+                // exactly one well-formed value is skipped (validating skipper) ...
+                &&& (res.is_ok() ==> value_end(s, i) == Some(final(self).parser.read.idx() as int))
+                // ... and its text is handed out as a `str` only after the UTF-8 verdict: in the default configuration
+                // the consumed part is clean, and the visitor gets the exact source span, borrowed unless it is a
+                // string with an escape; in lossy mode it gets that or the repaired text as a copy
+                &&& (res.is_ok() && !lossy ==> final(self).parser.utf8_clean())
+                &&& (res.is_ok() ==> ({
+                        let e = value_end(s, i).unwrap();
+                        let plain = visitor.on_str(s.subrange(p, e), !(s[p] == 0x22 && has_bs(s, p + 1, e)));
+                        res == plain || (lossy && res == visitor.on_str(lossy_repair(s.subrange(p, e)), false))
+                    }))
+            }),
+//@end
+}
+// ---- OwnedLazyValue as a target
+#[verifier::external_body]
+pub struct OwnedLazyValue { _p: core::marker::PhantomData<()> }
+// `crate::from_str(&String::from_utf8_lossy(raw))`: the value built from the repaired text (another whole-input parse)
+#[verifier::external_body]
+pub fn owned_from_lossy(raw: &[u8]) -> (r: Result<OwnedLazyValue>) { unimplemented!() }
+// `ManuallyDrop::new(v)`: the same value, not dropped at the end of the scope
+pub fn no_drop<T>(v: T) -> (r: T) ensures r == v, { v }
+// the unsafe hand-over of the finished value to its visitor as raw bytes (`ManuallyDrop` + `visit_bytes`)
+#[verifier::external_body]
+pub fn hand_over_owned<'de, V: Visitor<'de>>(visitor: V, val: OwnedLazyValue) -> (r: Result<V::Value>) { unimplemented!() }
+impl<'de, R: Reader<'de>> Parser<R> {
+    // proved in unit `owned_load` (exactly one well-formed value, children kept with their exact spans)
+    #[verifier::external_body]
+    pub fn get_owned_lazyvalue(&mut self, strict: bool) -> (res: Result<OwnedLazyValue>)
+        requires old(self).pinv(),
+        ensures final(self).pinv(), final(self).same_doc(old(self)), final(self).read.idx() >= old(self).read.idx(),
+    { unimplemented!() }
+}
+impl<'de, R: Reader<'de>> Deserializer<R> {
+//@extract file=src/serde/de.rs impl="Deserializer<R>" fn=deserialize_owned_lazyvalue
+//@subst /V: de::Visitor<'de>,/ => V: Visitor<'de>,
+//@subst? /crate::from_str\(&String::from_utf8_lossy\(raw\)\)\?/ => owned_from_lossy(raw)?
+//@subst /ManuallyDrop::new\(/ => no_drop(
+//@subst /unsafe \{\s*let binary = &\*slice_from_raw_parts\(\s*&val as \*const _ as \*const u8,\s*std::mem::size_of::<OwnedLazyValue>\(\),\s*\);\s*visitor\.visit_bytes\(binary\)\s*\}/ => hand_over_owned(visitor, val)
+//@sig
+        requires old(self).parser.pinv(),
+        ensures final(self).parser.pinv(), final(self).parser.same_doc(&old(self).parser),
+            // the raw parts are kept as `str`: in the default configuration a value is only handed out when the consumed
+            // part holds no invalid UTF-8 (lossy: it is rebuilt from the repaired text)
+            res.is_ok() && !old(self).parser.cfg.utf8_lossy ==> final(self).parser.utf8_clean(),
+//@end
+}
+// `status == ParseStatus::HasEscaped` (derived PartialEq on a field-less enum)
+#[verifier::external_body]
+pub fn status_is_escaped(st: ParseStatus) -> (r: bool) ensures r == is_esc_status(st), { unimplemented!() }
+
 // ---- Value as a target: Deserializer::deserialize_value. The DOM parser itself is units `decoder` /
 // `decoder_inplace`; here: the reader arithmetic around it (found F19, F24 at this call site)
 #[verifier::external_body]
